@@ -8,7 +8,7 @@ let dispatch kind args =
   | "skelvm" | "skelsem" -> C03.run kind args
   | "v1conv" | "v1reloc" -> C11.run kind args
   | "enc" | "dec" -> C04.run kind args
-  | "symtab" | "loadsok" -> C13.run kind args
+  | "symtab" | "loadsok" | "finame" -> C13.run kind args
   | "foldbin" | "foldun" | "litfalsy" -> C01.run kind args
   | "wffn" -> C05.run kind args
   | "callbind" -> C14.run kind args
